@@ -17,6 +17,9 @@
 //         face <face options> <chunk bits> <glyph count of maxp> <Silf hex> <Gloc hex> <Glat hex> <Feat hex> <Sill hex>     (- = absent)
 //            gr_make_face_with_ops with these five tables (exact-size buffers) and the other tables of the base font, then gr_face_destroy
 //            -> fault | compressed | noface | ok <glyphs> <features> <languages> <sub-tables>:<passes of each>
+//         gfx <indexToLocFormat> <numLongHorMetrics> <loca hex> <glyf hex|-> <hmtx hex> <gid,…>
+//            the graphics half of Loader::read_glyph (LocaLookup, GlyfLookup, GlyfBox, HorMetrics) on exact-size buffers (glyf >= 10 bytes or absent,
+//            hmtx >= 4 bytes: what Face::Table hands out)  -> per gid: F (inverted box: read_glyph fails) | <xMin,yMin,xMax,yMax or ->/<advance or ->
 //         codeinfo                          -> <numClasses> <numGlyphAttrs> <numFeatures> <numUser> <sizeof(instr)>: the limits the code loader takes from the base font, and the size of an instruction slot (the model's pool arithmetic assumes 8)
 //         code <constraint 0|1> <passtype> <pre_context> <rule_length> <classes> <gattrs> <feats> <user> <hex bytecode>
 //            Machine::Code's loading constructor on exactly these bytes (own buffers); the four limits must be codeinfo's
@@ -213,6 +216,41 @@ int main(int argc, char **argv) {
             }
             delete f;
             delete ff;
+            if (g_faults) out = "fault";
+        } else if (w.size() == 7 && w[0] == "gfx") {
+            // TtfUtil::LocaLookup / GlyfLookup / GlyfBox / HorMetrics as Loader::read_glyph uses them, on exact-size loca, glyf and hmtx buffers
+            // and a head / hhea that say just the format and the number of long metrics
+            std::vector<uint8_t> loca, glyf, hmtx;
+            if (!parse_hex(w[3], loca) || !parse_hex(w[4], glyf) || !parse_hex(w[5], hmtx)) { puts("bad-op"); fflush(stdout); continue; }
+            unsigned fmt = atoi(w[1].c_str()), nl = atoi(w[2].c_str());
+            std::vector<uint8_t> head(54, 0), hhea(36, 0);
+            head[50] = uint8_t(fmt >> 8); head[51] = uint8_t(fmt);
+            hhea[34] = uint8_t(nl >> 8); hhea[35] = uint8_t(nl);
+            Exact eh(head), ehh(hhea), el(loca), eg(glyf), em(hmtx);
+            out.clear();
+            std::stringstream gs(w[6]); std::string gtok; bool first = true;
+            while (std::getline(gs, gtok, ',')) {
+                unsigned gid = atoi(gtok.c_str());
+                std::string one;
+                bool failed = false, havebox = false;
+                int xMin = 0, yMin = 0, xMax = 0, yMax = 0;
+                if (!glyf.empty()) {
+                    size_t locidx = TtfUtil::LocaLookup(gid, el.p, loca.size(), eh.p);
+                    void *pGlyph = TtfUtil::GlyfLookup(eg.p, locidx, glyf.size());
+                    if (pGlyph && TtfUtil::GlyfBox(pGlyph, xMin, yMin, xMax, yMax)) {
+                        if ((xMin > xMax) || (yMin > yMax)) failed = true; else havebox = true;
+                    }
+                }
+                if (failed) one = "F";
+                else {
+                    int nLsb; unsigned int nAdvWid;
+                    bool hm = TtfUtil::HorMetrics(gid, em.p, hmtx.size(), ehh.p, nLsb, nAdvWid);
+                    if (havebox) { snprintf(buf, sizeof buf, "%d,%d,%d,%d", xMin, yMin, xMax, yMax); one = buf; } else one = "-";
+                    one += "/";
+                    if (hm) { snprintf(buf, sizeof buf, "%u", nAdvWid); one += buf; } else one += "-";
+                }
+                out += (first ? "" : " ") + one; first = false;
+            }
             if (g_faults) out = "fault";
         } else if (w.size() == 9 && w[0] == "face") {
             // gr_make_face_with_ops with the five Graphite tables from the line (exact-size buffers, empty = absent), everything else from the base font
